@@ -28,9 +28,18 @@ FIXED = [
  ("C11", "fix: file store listed", "file store: names a.txt and a/b are listed as [a/b a.txt]; with prefix=a, delimiter=/ the items a.txt and a0 are skipped (directory a/ walked before a.txt; also C09)"),
  ("C07", "fix: upload and patch responses were read", "two concurrent unconditional uploads of one object both report the same generation in their responses; upload racing a delete dereferences nil metadata (server panic, also C20)"),
  ("C07", "fix: object reads could observe", "file store: metadata GET during an upload returns the new file's own mtime as generation with metageneration 0 (content written, sidecar not yet)"),
+ ("C03", "fix: rows without cells were kept", "ReadModifyWriteRow without rules, or dropping a row's only family, leaves a key without cells that SampleRowKeys reports"),
+ ("C03", "fix: rows_limit counted rows", "rows_limit=1 with a cells_per_row_offset filter that empties the first row returns nothing"),
+ ("C16", "fix: garbage collection kept rows", "a GC pass that removes the last cell of a row leaves the key behind (reported by SampleRowKeys)"),
+ ("C20", "fix: compose without a destination", "POST .../compose with a body lacking \"destination\" -> nil dereference"),
+ ("C20", "fix: DELETE on the bucket collection", "file store: DELETE /storage/v1/b removes the store's root directory (every bucket)"),
+ ("C20", "fix: rows with an empty key", "MutateRow with an empty row key is stored; ReadRows then emits a chunk without a row key"),
+ ("C20", "fix: downloading an object marked gzip", "GET alt=media of an object with contentEncoding=gzip whose bytes are not gzip -> nil dereference"),
  ("C17", "fix: leveldb row iteration ignored", "leveldb engines: a filter error raised on a non-last row is overwritten by the next row; read ends OK with the row missing (btree returns InvalidArgument; seen through C05)"),
 ]
 OPEN = [
+ {"status": "open", "property": "C20", "id": "deleted-table-object-shares-directory", "witness": "disk-clear-races-table-recreate",
+  "what": "disk engine: DropRowRange(all) on a table that is concurrently deleted and re-created: the deleted table's object still clears/re-opens the directory the new table owns; the second open fails on the leveldb file lock and the handler panics"},
  {"status": "open", "property": "C10", "id": "generation-is-wall-clock-stalled", "witness": "generation-equal-under-stalled-clock",
   "what": "the generation is the wall clock in nanoseconds: two content writes to one name at the same clock reading (stalled / coarse clock) get equal generations"},
  {"status": "open", "property": "C10", "id": "generation-is-wall-clock-backward", "witness": "generation-after-backward-clock-step",
